@@ -74,6 +74,26 @@ theorem abs_put (h : Heap) (q : PolicyQ) (id : Nat) :
       · simp [abs]
       · simp [abs]
 
+/-- the policy's own look-up is the list's -/
+theorem abs_lookup (q : PolicyQ) (k : Int) : lookup q.abs.items k = q.find k := by
+  simp [abs, lookup, find, List.find?_append]
+
+/-- `Get` and `Peek` of the list are the policy's `get` / `peek` (answer and successor) -/
+theorem abs_get_full (kind : Kind) (h : Heap) (q : PolicyQ) (k : Int) :
+    ((q.get (kind == .fifo) h k).1.abs = (q.abs.get kind h k).1) ∧
+    (q.get (kind == .fifo) h k).2 = (q.abs.get kind h k).2 := by
+  simp only [PolicyQ.get, LCache.get, abs_lookup]
+  cases hl : q.find k with
+  | none => exact ⟨rfl, rfl⟩
+  | some e =>
+    simp only
+    cases kind <;> cases hu : (h e.id).used <;>
+      simp [abs, removeKeyQ, removeKey, List.filter_append, List.filter_reverse]
+
+theorem abs_peek (h : Heap) (q : PolicyQ) (k : Int) : q.peek h k = q.abs.peek h k := by
+  simp only [PolicyQ.peek, LCache.peek, abs_lookup]
+  cases q.find k <;> rfl
+
 theorem abs_get (kind : Kind) (h : Heap) (q : PolicyQ) (k : Int) :
     (q.abs.get kind h k).2 = (lookup q.abs.items k).map (·.id) ∧
     ((q.abs.get kind h k).1 = q.abs ∨ (q.abs.get kind h k).1 = (q.removeKeyQ k).abs) := by
@@ -160,14 +180,10 @@ def free (q : PolicyQ) (n : Int) : PolicyQ :=
   if n ≤ q.cap - q.len then q else q.dropN (n - (q.cap - q.len)).toNat
 
 /-- the policy-level meaning of each call.  `Get` removes the key from its queue (FIFO: unless the block
-found is `Used()`, as coded); the table look-up itself is not an eviction-policy matter and is taken
-from the list. -/
+found is `Used()`, as coded), see `PolicyQ.get`; nothing here refers to the linked list. -/
 def step (kind : Kind) (h : Heap) (q : PolicyQ) : LOp → PolicyQ
   | .put id => (q.put h id).1
-  | .get k =>
-    match lookup q.abs.items k with
-    | none => q
-    | some e => if kind = .fifo ∧ (h e.id).used then q else q.removeKeyQ k
+  | .get k => (q.get (kind == .fifo) h k).1
   | .peek _ => q
   | .drop n => q.dropN n.toNat
   | .resize n => q.resize n
@@ -195,14 +211,8 @@ theorem abs_step (kind : Kind) (h : Heap) (q : PolicyQ) (op : LOp) :
   cases op with
   | put id => simp only [step, LCache.step, abs_put]
   | get k =>
-    simp only [step, LCache.step, LCache.get]
-    cases hl : lookup q.abs.items k with
-    | none => rfl
-    | some e =>
-      simp only
-      split
-      · rfl
-      · simp [abs, removeKeyQ, removeKey, List.filter_append, List.filter_reverse]
+    simp only [step, LCache.step]
+    exact (abs_get_full kind h q k).1
   | peek k => rfl
   | drop n => exact abs_drop_int q n
   | resize n =>
